@@ -17,17 +17,38 @@ raises KeyboardInterrupt or an Exception.  Judged INSIDE Coq (model/C07Tie.v):
   * model: the observed call trace is a run of the translated skeleton (which also decides
     whether the fault fell inside the operation's own clean-up = outside the property), and
     the observed token stream equals DrawInt.old_interrupted / new_interrupted.
-A run whose fault is in scope and that violates the specification is the replay."""
+A run whose fault is in scope and that violates the specification is the replay.
+
+Round 4 -- faults at ANY point (model/C07Any.v, proofs/SkelC07Any.v: every call of the skeletons a
+fault position, [cfg_all]).  Dynamic side:
+  * ASYNCHRONOUS exceptions (harness/impl/asyncfault.py): KeyboardInterrupt / an OSError raised at the
+    k-th 'line' event executed inside term_image code while draw() runs.  A counting run records, per
+    line event, the chain of call sites from draw() down to depth 3; quick tier: one k per distinct
+    chain (= every statement of draw(), render(), _renderer, _display_animated, _animate_,
+    _init_render_, ... and of their direct callees is interrupted at least once; first occurrence with
+    KeyboardInterrupt, last occurrence with the OSError) + random k; thorough tier: ALL k, both kinds,
+    for the scenarios of ASYNC_ALL (every style / API, still and animated), stratified + 40 random k per
+    kind for those of ASYNC_STRATA.
+  * SOURCE faults: the file of a file-sourced image is removed / replaced by garbage / by a directory
+    between the construction of the image and draw().
+  Whether a position is clean-up code (outside the property) is decided by the driver from the source
+  text (ast: `except` clauses, `finally` bodies, the library's clean-up entry points; the line of a
+  `try:` keyword is no position at all -- CPython places its NOP outside the enclosing exception
+  table and never delivers a signal there), see harness/impl/impl_c07.py `classify`.  Judged inside
+  Coq (C07Any.check_any): terminal state of Term.exec on the observed stream, termios, render data
+  finalized (at once inside draw()'s try ... finally, by RenderData.__del__ before it), image.size
+  setting, tell(), exception contract."""
 from __future__ import annotations
 
 import json
+import os
 import re
 
 import core
 import lexer
 
 LEVEL = "proof"
-EXTRA_TARGETS = ["model/C07Tie.vo", "model/C07Spec.vo"]
+EXTRA_TARGETS = ["model/C07Tie.vo", "model/C07Spec.vo", "model/C07Any.vo"]
 
 KITTY_CHUNKED = {"api": "old", "style": "kitty", "frames": 3, "size": "fixed", "width": 8, "noise": True, "px": [80, 80],
                  "style_args": {"method": "whole"}}
@@ -83,6 +104,37 @@ SCENARIOS = [
     ("new/text/indefinite3/nohide", {"api": "new", "style": "text", "indefinite": 3, "hide_cursor": False}, None),
     ("new/text/anim1", {"api": "new", "style": "text", "frames": 2, "loops": 1, "hide_cursor": True, "size_wh": [5, 1]}, None),
 ]
+# file-sourced images (round 4): _get_image() really opens the source at every draw()
+FILE_SCENARIOS = [
+    ("old/block/still/file/dynamic", {"api": "old", "style": "block", "frames": 1, "size": "dynamic", "size_enum": "AUTO",
+                                      "source": "file"}),
+    ("old/kitty/anim3/file/dynamic", {"api": "old", "style": "kitty", "frames": 3, "size": "dynamic", "size_enum": "ORIGINAL",
+                                      "source": "file", "seek": 1}),
+    ("old/iterm2/still/file/dynamic", {"api": "old", "style": "iterm2", "frames": 1, "size": "dynamic", "size_enum": "ORIGINAL",
+                                       "source": "file"}),
+    ("old/block/anim3/file/fixed", {"api": "old", "style": "block", "frames": 3, "size": "fixed", "width": 4, "source": "file",
+                                    "seek": 2}),
+    ("old/iterm2/anim3/file/dynamic", {"api": "old", "style": "iterm2", "frames": 3, "size": "dynamic", "size_enum": "AUTO",
+                                       "source": "file"}),
+    ("old/kitty/still/file/fit-to-width", {"api": "old", "style": "kitty", "frames": 1, "size": "dynamic",
+                                           "size_enum": "FIT_TO_WIDTH", "px": [8, 2], "source": "file"}),
+]
+SCENARIOS += [(n, s, None) for n, s in FILE_SCENARIOS]
+SRC_FAULTS = ("removed", "garbage", "directory")
+# asynchronous faults: quick tier (one k per distinct chain of call sites + random)
+ASYNC_QUICK = ["old/block/still/file/dynamic", "old/block/anim3", "old/kitty/anim3/file/dynamic", "old/kitty/still/chunked",
+               "old/iterm2/still", "old/iterm2/anim3", "new/text/still", "new/text/anim3", "new/text/still/nohide/echo",
+               "new/text/anim3/nohide/echo/loops2/cache"]
+# thorough tier: ALL k, both kinds, for one still and one animation per style / API (+ the echo / hide_cursor variants)
+ASYNC_ALL = list(ASYNC_QUICK)
+# ... one k per chain of call sites + 40 random per kind (the last one: Size.FIT, ~10000 line events: + 10 random)
+ASYNC_STRATA = ["old/block/still", "old/kitty/still/lines", "old/kitty/anim3/chunked", "old/iterm2/still/file/dynamic",
+                "old/iterm2/anim3/file/dynamic", "old/block/anim3/file/fixed", "old/block/anim3/cached/repeat2",
+                "old/iterm2/anim3/konsole", "old/kitty/anim3/one-line", "old/kitty/still/file/fit-to-width",
+                "new/text/frame-of-anim", "new/text/anim3/padded", "new/text/indefinite2", "new/text/still/echo",
+                "new/text/anim3/echo", "old/block/frame-of-anim"]
+# file-sourced scenarios left out of the enumeration of tracked-call faults (same call structure as the others)
+SYNC_SKIP = {"old/block/anim3/file/fixed", "old/iterm2/anim3/file/dynamic", "old/kitty/still/file/fit-to-width"}
 SCN = {n: s for n, s, _ in SCENARIOS}
 MODE = {n: m for n, _, m in SCENARIOS}
 
@@ -266,23 +318,84 @@ def describe(name, case, res=None, bits=0):
     return s
 
 
+def async_ks(res, rng, mode):
+    """line-event numbers to fault: [(k, kind)]"""
+    n = res["acount"]
+    if mode == "all" and n <= 2500:
+        return [(k, kind) for k in range(1, n + 1) for kind in ("KI", "Exc")]
+    first, last = {}, {}
+    for i, g in enumerate(res["groups"]):
+        first.setdefault(g, i + 1)
+        last[g] = i + 1
+    picks = {(k, "KI") for k in first.values()} | {(k, "Exc") for k in last.values()}
+    for _ in range(6 if mode == "strata" else (40 if n <= 2500 else 10)):
+        picks.add((rng.randrange(1, n + 1), "KI"))
+        picks.add((rng.randrange(1, n + 1), "Exc"))
+    return sorted(picks)
+
+
+def acase_term(sidx, case, res, obs):
+    origin = "OAsync" if case.get("async") else "OSource"
+    kind = 1 if (case.get("async") or {}).get("kind") == "KI" else 2
+    fin = True if res.get("finalized") is None else res["finalized"]
+    rel = True if res.get("final_released") is None else res["final_released"]
+    return (f"mkacase sc_{sidx} {origin} {kind}%nat {b(res.get('cleanup'))} {b(res.get('strict'))} {b(res.get('started'))} "
+            f"{lexer.coq_toks(obs)} {res['out']}%nat {b(res['termios_same'])} {b(fin)} {b(rel)} "
+            f"{b(res['size_same'])} {b(res['seek_same'])}")
+
+
+def describe_any(name, case, res=None, bits=0):
+    s = f"{name}: "
+    if case.get("async"):
+        a = case["async"]
+        s += f"asynchronous {'KeyboardInterrupt' if a['kind'] == 'KI' else 'OSError'} at line event #{a['k']}"
+        if res is not None and res.get("astack"):
+            st = res["astack"]
+            s += " (" + " > ".join(f"{fn}() {os.path.basename(f)}:{ln}" for f, ln, fn in st[-3:]) + ")"
+            if res.get("cleanup"):
+                s += f" [clean-up code: {res['cleanup']}]"
+    else:
+        s += f"source file {case.get('srcfault')} between construction and draw()"
+    if res is not None:
+        s += f" | draw() {['returned', 'raised KeyboardInterrupt', 'raised ' + str(res.get('exc'))][res['out']]}"
+        tail = "".join(t for t, _ in res["segs"][-6:])
+        s += f" | stream tail {tail[-60:]!r}"
+        if bits:
+            s += " | VIOLATED: " + "; ".join(n for bit, n in BIT_NAME if bits & bit)
+            if bits & 8:
+                s += f" size {res.get('size')}"
+            if bits & 16:
+                s += f" tell {res.get('seek')}"
+    return s
+
+
 def run(ctx):
     quick = ctx.quick
     rng = ctx.rng
     errors, mismatches, failures = [], [], []
-    hist = {"scenario": {}, "fault_kind": {}, "hit_class": {}, "cut_kind": {}, "judgement": {}, "outcome": {}, "spec_bits": {}}
+    hist = {"scenario": {}, "fault_kind": {}, "hit_class": {}, "cut_kind": {}, "judgement": {}, "outcome": {}, "spec_bits": {},
+            "any_point_scenario": {}, "any_point_fault": {}, "async_scope": {}, "any_point_outcome": {}, "async_function": {}}
+    in_scope_any = 0
+    impl_timeout = 900 if quick else 3000   # (a loaded machine: the thorough tier needs ~10 CPU-minutes per worker at most)
 
     if ctx.replay:
         rc = ctx.replay["replay"]["case"]
-        names = [rc["name"]]
+        names = sync_names = [rc["name"]]
+        async_names, src_names = [], []
     else:
-        names = [n for n, _, m in SCENARIOS if m or not quick]
-    # ---- fault-free runs
+        sync_names = [n for n, _, m in SCENARIOS if m or (not quick and n not in SYNC_SKIP)]
+        async_names = list(ASYNC_QUICK) if quick else ASYNC_ALL + ASYNC_STRATA
+        src_names = [n for n, _ in FILE_SCENARIOS][: 2 if quick else None]
+        names = sync_names + [n for n in dict.fromkeys(async_names + src_names) if n not in sync_names]
+    # ---- fault-free runs (+ the counting runs of the asynchronous faults)
     base_cases = [{"name": n, "scn": SCN[n], "fault": None} for n in names]
-    base_res = core.run_impl_parallel("impl_c07.py", base_cases)
+    count_cases = [{"name": n, "scn": SCN[n], "fault": None, "async": {"k": None, "record": True}} for n in async_names]
+    all_base = core.run_impl_parallel("impl_c07.py", base_cases + count_cases, timeout=impl_timeout)
+    base_res, count_res = all_base[: len(base_cases)], all_base[len(base_cases):]
     sidx = {}
     defs = []
     cases = []
+    acases = []   # round 4: asynchronous / source faults, judged by model/C07Any.v
     for i, (c, r) in enumerate(zip(base_cases, base_res)):
         if r.get("abort") or r.get("out") != 0:
             errors.append(f"fault-free run failed: {c['name']}: {r.get('abort') or r.get('exc')}")
@@ -297,7 +410,7 @@ def run(ctx):
         defs.append(f"Definition sc_{i} : scn := {scn_term(c['scn'], r)}.\n"
                     f"Definition fr_{i} : list (list tok) := {core.coq_list(ftoks, lexer.coq_toks)}.\n")
         cases.append(c)
-        if ctx.replay:
+        if ctx.replay or c["name"] not in sync_names:
             continue
         for k, call in enumerate(r["calls"]):
             cls, text = call[0], call[1]
@@ -309,13 +422,34 @@ def run(ctx):
                     for after in (False, True):
                         cases.append({"name": c["name"], "scn": c["scn"], "fault": {"k": k, "kind": kind, "j": None, "after": after}})
     if ctx.replay and names[0] in sidx:
-        cases.append({"name": rc["name"], "scn": SCN[rc["name"]], "fault": rc["fault"]})
+        if rc.get("async") or rc.get("srcfault"):
+            acases.append({k: v for k, v in rc.items() if k in ("name", "async", "srcfault")} | {"scn": SCN[rc["name"]], "fault": None})
+        else:
+            cases.append({"name": rc["name"], "scn": SCN[rc["name"]], "fault": rc["fault"]})
+    async_positions = {}
+    for c, r in zip(count_cases, count_res):
+        if c["name"] not in sidx:
+            continue
+        if r.get("abort") or r.get("out") != 0 or not r.get("acount"):
+            errors.append(f"counting run failed: {c['name']}: {r.get('abort') or r.get('exc')}")
+            continue
+        mode = "strata" if quick else ("strata+" if c["name"] in ASYNC_STRATA else "all")
+        ks = async_ks(r, rng, mode)
+        async_positions[c["name"]] = {"line_events": r["acount"], "call_site_chains": len(r["group_keys"]), "faulted": len(ks)}
+        for k, kind in ks:
+            acases.append({"name": c["name"], "scn": c["scn"], "fault": None, "async": {"k": k, "kind": kind}})
+    for n in src_names:
+        if n in sidx:
+            for how in SRC_FAULTS:
+                acases.append({"name": n, "scn": SCN[n], "fault": None, "srcfault": how})
     # stripe the cases over the workers (the expensive scenarios are contiguous)
-    perm = [i for r in range(core.NCPU) for i in range(r, len(cases), core.NCPU)]
-    striped = core.run_impl_parallel("impl_c07.py", [cases[i] for i in perm])
-    results = [None] * len(cases)
+    every = cases + acases
+    perm = [i for r in range(core.NCPU) for i in range(r, len(every), core.NCPU)]
+    striped = core.run_impl_parallel("impl_c07.py", [every[i] for i in perm], timeout=impl_timeout)
+    results = [None] * len(every)
     for i, r in zip(perm, striped):
         results[i] = r
+    results, aresults = results[: len(cases)], results[len(cases):]
 
     # ---- encode
     keys, key_idx, owner = [], {}, []
@@ -419,12 +553,83 @@ def run(ctx):
                                "why": "the observed call trace is not a run of the translated skeleton" if code == 1
                                else "the observed token stream differs from model/DrawInt.v",
                                "events": r["events"] if code == 1 else None})
+    # ---- round 4: asynchronous / source faults, judged by model/C07Any.v (specification only)
+    akeys, akey_idx, aowner = [], {}, []
+    for c, r in zip(acases, aresults):
+        if r.get("abort"):
+            errors.append(f"run aborted: {describe_any(c['name'], c)}: {r['abort']}")
+            aowner.append(None)
+            continue
+        if c.get("async") and not r.get("afired"):
+            hist["async_scope"]["not reached (the run had fewer line events)"] = \
+                hist["async_scope"].get("not reached (the run had fewer line events)", 0) + 1
+            aowner.append(None)
+            continue
+        if not r.get("master_ok"):
+            errors.append(f"pty master bytes differ from what the stream delivered: {describe_any(c['name'], c, r)} {r.get('master_diff')}")
+            aowner.append(None)
+            continue
+        try:
+            term = acase_term(sidx[c["name"]], c, r, lex_segments(r["segs"]))
+        except lexer.LexError as e:
+            errors.append(f"unlexable stream: {describe_any(c['name'], c, r)}: {e}")
+            aowner.append(None)
+            continue
+        if term not in akey_idx:
+            akey_idx[term] = len(akeys)
+            akeys.append(term)
+        aowner.append(akey_idx[term])
+    acodes = {}
+    any_ok = (core.COQ / "model" / "C07Any.vo").exists()
+    if akeys and any_ok:
+        aheader = ("From Coq Require Import List ZArith Bool Arith.\nImport ListNotations.\n"
+                   "From TI Require Import lib.Term model.DrawInt model.C07Spec model.C07Any.\nOpen Scope Z_scope.\n" + "".join(defs))
+        abad, errs = core.coq_shards("c07a", aheader, akeys, "acase", "bad_any cases",
+                                     shard=max(30, (len(akeys) + core.NCPU - 1) // core.NCPU))
+        if errs:
+            any_ok = False
+            errors += [e[-900:] for e in errs[:3]]
+        acodes = {i: (v // 100, v % 100) for i, v in abad}
+    elif akeys:
+        errors.append("model/C07Any.vo is missing: the asynchronous / source faults were not judged")
+    afailures = []
+    for c, r, o in zip(acases, aresults, aowner):
+        if o is None or not any_ok:
+            continue
+        code, bits = acodes.get(o, (0, 0))
+        what = "async-" + c["async"]["kind"] if c.get("async") else "source-" + c["srcfault"]
+        hist["any_point_scenario"][c["name"]] = hist["any_point_scenario"].get(c["name"], 0) + 1
+        hist["any_point_fault"][what] = hist["any_point_fault"].get(what, 0) + 1
+        scope = "in scope" if code != 10 else "clean-up code: " + re.sub(r"\d+", "N", re.sub(r" of .*| \(.*", "", r.get("cleanup") or "?"))
+        hist["async_scope"][scope] = hist["async_scope"].get(scope, 0) + 1
+        hist["any_point_outcome"][str(r["out"])] = hist["any_point_outcome"].get(str(r["out"]), 0) + 1
+        if c.get("async") and r.get("astack"):
+            fn = r["astack"][-1][2]
+            hist["async_function"][fn] = hist["async_function"].get(fn, 0) + 1
+        if code == 0:
+            in_scope_any += 1
+            distinct.add(("any", o))
+        elif code == 2:
+            hist["spec_bits"][str(bits)] = hist["spec_bits"].get(str(bits), 0) + 1
+            rcase = {"name": c["name"], "scn": c["scn"], "fault": None}
+            if c.get("async"):
+                rcase["async"] = c["async"]
+            else:
+                rcase["srcfault"] = c["srcfault"]
+            afailures.append({
+                "signature": core.sig({"scenario": c["name"], "async": c.get("async"), "srcfault": c.get("srcfault")}),
+                "what": "interrupted / failed draw() leaves an obligation open: " + describe_any(c["name"], c, r, bits),
+                "replay": {"case": rcase, "bits": bits, "code": code,
+                           "observed": {k: r.get(k) for k in ("out", "exc", "termios_same", "finalized", "final_released", "size",
+                                                              "seek", "astack", "strict", "started")},
+                           "stream": "".join(t for t, _ in r["segs"])[-400:]},
+            })
     # smallest failing input first; one per (scenario, violated obligations, fault kind, class of the faulted call)
     def size(fl):
         f = fl["replay"]["case"]["fault"] or {}
         return (len(json.dumps(fl["replay"]["case"]["scn"])), f.get("k", -1), f.get("j") or 0)
     failures.sort(key=size)
-    total_failing = len(failures)
+    total_failing = len(failures) + len(afailures)
     seen, kept = set(), []
     for fl in failures:
         f = fl["replay"]["case"]["fault"] or {}
@@ -434,16 +639,36 @@ def run(ctx):
             seen.add(key)
             kept.append(fl)
     failures = kept
+    # asynchronous / source faults: source faults first (no position to shrink), then the smallest scenario and the
+    # earliest line event; one per (scenario, violated obligations, kind of fault, interrupted function)
+    def asize(fl):
+        rc_ = fl["replay"]["case"]
+        return (0 if rc_.get("srcfault") else 1, len(json.dumps(rc_["scn"])), (rc_.get("async") or {}).get("k", 0))
+    afailures.sort(key=asize)
+    for fl in afailures:
+        rc_ = fl["replay"]["case"]
+        st = fl["replay"]["observed"].get("astack") or [[None, None, None]]
+        key = (rc_["name"], fl["replay"]["bits"], rc_.get("srcfault") or rc_["async"]["kind"], st[-1][2])
+        if key not in seen:
+            seen.add(key)
+            failures.append(fl)
 
     picks = [i for i, c in enumerate(cases) if c.get("fault") and owner[i] is not None]
     samples = [describe(cases[0]["name"], cases[0], results[0])] if cases else []
-    for i in picks[:: max(1, len(picks) // 5)][:5]:
+    for i in picks[:: max(1, len(picks) // 2)][:2]:
         samples.append(describe(cases[i]["name"], cases[i], results[i]))
+    apicks = [i for i, c in enumerate(acases) if aowner[i] is not None]
+    for i in apicks[len(apicks) // 5:: max(1, len(apicks) // 2)][:2] + [i for i in apicks if acases[i].get("srcfault")][:1]:
+        samples.append(describe_any(acases[i]["name"], acases[i], aresults[i]))
+    for i in picks[:: max(1, len(picks) // 5)][1:4]:
+        samples.append(describe(cases[i]["name"], cases[i], results[i]))
+    top = sorted(hist["async_function"].items(), key=lambda kv: -kv[1])
+    hist["async_function"] = dict(top[:30]) | ({"(other functions)": sum(v for _, v in top[30:])} if top[30:] else {})
     return {
         "corr_name": "fault enumeration of draw() on a pty (3 old-API styles + an instrumented Renderable; still / animated): "
                      "final terminal state of Term.exec on the observed stream + termios / finalized / size / seek / exception, "
                      "call trace vs. translated skeleton, token stream vs. model/DrawInt.v",
-        "evaluations": len(cases),
+        "evaluations": len(cases) + len(acases),
         "distinct_nontrivial": len(distinct),
         "rule": f"{len(names)} scenarios ({', '.join(names)}); for each the fault-free run, then FOR ALL k the k-th faultable call "
                 "(every stream write() incl. the empty sep/end strings of print(), flush(), sleep, frame render / next frame; "
@@ -453,7 +678,14 @@ def run(ctx):
                    if quick else "every position (texts over 600 characters: 64 leading / trailing positions of every escape sequence + "
                    "68 random)")
                 + ".  Non-trivial: distinct observations (stream, trace, outcome) with a fault that the skeleton places outside "
-                "the operation's own clean-up, judged in Coq as agreeing with specification and model.",
+                "the operation's own clean-up, judged in Coq as agreeing with specification and model.  "
+                f"ANY-POINT faults (round 4), scenarios {', '.join(async_names)}: an asynchronous KeyboardInterrupt / OSError at the "
+                "k-th line event executed inside term_image code during draw() -- "
+                + ("one k per distinct chain of call sites (draw() down to depth 3 + the interrupted function): first occurrence "
+                   "KeyboardInterrupt, last occurrence OSError, + 6 random k per kind" if quick else
+                   f"ALL k, both kinds, for {', '.join(ASYNC_ALL)}; one k per chain of call sites + 40 random per kind for the others")
+                + f"; source faults {SRC_FAULTS} on the file-sourced scenarios {', '.join(src_names)}.  Clean-up positions (decided "
+                "from the source text) are run and counted but not judged.  Non-trivial: distinct in-scope observations judged clean.",
         "samples": samples,
         "histogram": hist,
         "mismatches": mismatches,
@@ -472,12 +704,25 @@ def run(ctx):
             "text frames (C0 + CSI tokens, ending in SGR reset) and any handler that grounds the parser and resets SGR "
             "(CSI 0 m as the docstring hints); a cursor-positioning write cut inside its CSI with hide_cursor=False before the "
             "first frame is complete leaves that CSI open (ended by the next escape sequence or character): accepted",
-            "animations: KeyboardInterrupt raised before the first frame render call is reached (HIDE_CURSOR write) may propagate",
+            "animations: KeyboardInterrupt raised before the first frame render call is reached (HIDE_CURSOR write; with "
+            "asynchronous delivery: anything before the animation loop's try is entered) may propagate",
+            "asynchronous faults are delivered at 'line' events (harness/impl/asyncfault.py); the line of a `try:` keyword is "
+            "not a position (CPython 3.12 compiles it to a NOP outside the enclosing exception table and polls for signals at "
+            "calls, function entries and backward jumps only); positions lexically inside an except clause / finally body of "
+            "any active term_image frame, or inside close() / finalize() / __del__ / __exit__ / _close_image / "
+            "_handle_interrupted_draw[_], are clean-up code (outside the property)",
+            "render data created before draw()'s try is entered may be left to RenderData.__del__ by a fault in that window "
+            "(checked: it IS finalized once the exception object is released); inside draw()'s try ... finally it must be "
+            "finalized when draw() raises",
+            "an asynchronous OSError may be absorbed by a local fallback of the library (e.g. `except (AttributeError, OSError)` "
+            "around os.access): draw() then completes and every other obligation is still required",
         ],
         "trusted": ["harness/tx/tx_skel.py (Python ast -> prog, fail-closed)", "harness/lexer.py",
                     "the pty driver harness/impl/impl_c07.py (sys.stdout replacement on the pty slave, patches print in the image "
                     "modules, time.sleep, _render_image, ImageIterator._animate, RenderIterator.__next__, termios.tc[gs]etattr, "
-                    "RenderData.finalize)"],
+                    "RenderData.finalize, RenderData.__del__; sys.settrace for the asynchronous faults; ast for the clean-up "
+                    "regions)", "harness/impl/asyncfault.py"],
         "extra": {"in_scope_fault_runs": in_scope_fault_runs, "distinct_observations_judged": len(keys),
-                  "failing_runs_total": total_failing},
+                  "failing_runs_total": total_failing, "any_point_runs": len(acases), "any_point_in_scope_clean": in_scope_any,
+                  "any_point_distinct_observations_judged": len(akeys), "async_positions": async_positions},
     }
